@@ -96,7 +96,7 @@ def instruction(ops=None, aligned_only=False, mem_base=8):
 @st.composite
 def template(draw, aligned_only=False):
     """Structured blocks: counted loop, call/return, print / exit sequences, load-use, store-load."""
-    kind = draw(st.sampled_from(["loop", "call", "print", "exit", "loaduse", "storeload", "printstr", "jalrwrap", "rmw", "bigloop", "nested", "negalias"]))
+    kind = draw(st.sampled_from(["loop", "call", "print", "exit", "loaduse", "storeload", "printstr", "jalrwrap", "rmw", "bigloop", "nested", "negalias", "negstores"]))
     body_ops = [o for o in rv32.ALL_OPS if o not in rv32.BRANCH_OPS + ["jal", "jalr", "ecall"]]
     body = lambda n: draw(st.lists(instruction(body_ops, aligned_only), min_size=0, max_size=n))  # noqa: E731
     if kind == "negalias":
@@ -113,6 +113,21 @@ def template(draw, aligned_only=False):
         else:
             seq += [["addi", 13, 0, -k], [sop, 13, rs, 0]]
         return seq + [[lop, draw(st.sampled_from([9, 14, 15])), 0, -k]]
+    if kind == "negstores":
+        # the same location STORED to repeatedly with changing values, named by a negative number (x0 - k) or through a
+        # register holding the wrapped address; whatever was displayed or remembered after the first store must follow
+        w = draw(st.sampled_from([4, 4, 2, 1]))
+        k = w * draw(st.integers(1, 8)) if aligned_only or draw(st.booleans()) else draw(st.integers(1, 16))
+        sop = {4: "sw", 2: "sh", 1: "sb"}[w]
+        rs = draw(st.sampled_from([1, 2, 3, 5]))
+        seq = [[sop, 0, rs, -k]]
+        for _ in range(draw(st.integers(1, 2))):
+            seq.append(draw(st.sampled_from([["addi", rs, rs, 1], ["xori", rs, rs, -1], ["addi", rs, 0, 0x5A], ["addi", 0, 0, 0]])))
+            if draw(st.booleans()):
+                seq.append([sop, 0, rs, -k])
+            else:
+                seq += [["addi", 13, 0, -k], [sop, 13, rs, 0]]
+        return seq
     if kind == "nested":
         # inner loop smaller than a cache set, outer loop larger: re-use followed by new blocks (separates LRU from PLRU)
         b1 = [i for i in draw(st.lists(instruction(body_ops, aligned_only), min_size=0, max_size=2)) if dest(i) not in (6, 7)]
